@@ -787,6 +787,40 @@ def t_exceptions_more():
     except Exception as e6:
         out.append(e6.args[0])
     return out
+
+
+class ToolError(Exception):
+    pass
+
+
+def _load(fail):
+    if fail:
+        try:
+            raise FileNotFoundError("f")
+        except FileNotFoundError as e:
+            raise ToolError from e
+    return "loaded"
+
+
+def t_unbound_local_and_empty_exception(fail=True):
+    out = []
+    error = None
+    try:
+        thing = _load(fail)
+    except ToolError as e:
+        error = str(e)
+    out.append(error)
+    out.append(bool(error))
+    try:
+        out.append(thing)
+    except UnboundLocalError as e2:
+        out.append(type(e2).__name__)
+    try:
+        out.append(thing)
+    except NameError:
+        out.append("name error too")
+    out.append(str(ToolError("a", 2)))
+    return out
 '''
 
 
